@@ -1,13 +1,216 @@
 (* props/C07.v - property C07: every polynomial multiplication strategy returns the exact ring product.
-   Only statements, each closed by `exact`, each followed by Print Assumptions. *)
+   Only statements, each closed by `exact`, each followed by Print Assumptions.
+
+   Reading guide.  `o : fops F` is the record of field operations the Rust code is generic over; `field_ok o fk ok den`
+   (lib/FieldTheory.v) says that it implements the abstract field `fk : fieldK K` on representations satisfying `ok`,
+   `den` giving the denoted element (instance for BFieldElement: BFieldOk.bfe_field_ok).  A raw coefficient list `l`
+   (exactly what `Polynomial.coefficients` stores, leading zeros included) denotes `map den l`; `peq` is equality of
+   polynomials, `pmul` the ring product characterised by C07_product_is_convolution.  `Some r` = no panic.
+   Mixed-field products (BFE x XFE ...) take three records that refine the same K and `mul12_ok` for the mixed product.
+   NTT-based strategies take `ntt`/`intt` as parameters constrained by `ntt_ok`/`intt_ok`/`roots_ok` (PolyC07Wrap.v):
+   these are literally the C06 theorems; they are DISCHARGED for the base field in the C07_bfe_* theorems below. *)
 From Coq Require Import ZArith Bool List.
-From TF Require Import Word FieldOps FieldTheory PolyGen PolyCore PolySpec PolyCoreProofs.
+From TF Require Import Word BFieldGen BField FieldOps FieldTheory PolyGen PolyCore PolySpec PolyCoreProofs PolyC07Wrap PolyValueSem.
+From TF Require Import BFieldProofs BFieldOk Ntt.
 Import ListNotations.
 Open Scope Z_scope.
 
-(* the model's degree is the degree of the denoted polynomial *)
+(* the specification's product is the convolution  c_k = sum_{i+j=k} a_i b_j *)
+Theorem C07_product_is_convolution : forall {K} (fk : fieldK K) (p q : list K) (k : nat),
+  coeff fk (pmul fk p q) k = ksum fk (fun i => kmul fk (coeff fk p i) (coeff fk q (k - i))) (S k).
+Proof. exact @coeff_pmul. Qed.
+Print Assumptions C07_product_is_convolution.
+
+(* the model's degree is the degree of the denoted polynomial (-1 for zero), whatever is stored *)
 Theorem C07_degree :
   forall {F K} (o : fops F) (fk : fieldK K) (ok : F -> Prop) (den : F -> K), field_ok o fk ok den ->
   forall l, Forall ok l -> poly_degree o l = pdeg fk (map den l).
 Proof. exact @degree_pdeg. Qed.
 Print Assumptions C07_degree.
+
+(* naive_multiply, the `*` operator and the arm of `multiply` below the threshold, operands over possibly different
+   fields, zero and constant operands and stored leading zeros included; never panics (plain value) *)
+Theorem C07_naive_multiply :
+  forall {F1 F2 F3 K} (o1 : fops F1) (o2 : fops F2) (o3 : fops F3) (fk : fieldK K)
+         (ok1 : F1 -> Prop) (ok2 : F2 -> Prop) (ok3 : F3 -> Prop) (den1 : F1 -> K) (den2 : F2 -> K) (den3 : F3 -> K),
+  field_ok o1 fk ok1 den1 -> field_ok o2 fk ok2 den2 -> field_ok o3 fk ok3 den3 ->
+  forall mul12, mul12_ok fk ok1 ok2 ok3 den1 den2 den3 mul12 ->
+  forall a b, Forall ok1 a -> Forall ok2 b ->
+  Forall ok3 (poly_naive_multiply_gen o1 o2 o3 mul12 a b) /\
+  peq fk (map den3 (poly_naive_multiply_gen o1 o2 o3 mul12 a b)) (pmul fk (map den1 a) (map den2 b)).
+Proof. exact @w_naive_multiply_gen. Qed.
+Print Assumptions C07_naive_multiply.
+
+Theorem C07_mul_operator :
+  forall {F K} (o : fops F) (fk : fieldK K) (ok : F -> Prop) (den : F -> K), field_ok o fk ok den ->
+  forall a b, Forall ok a -> Forall ok b ->
+  Forall ok (poly_mul o a b) /\ peq fk (map den (poly_mul o a b)) (pmul fk (map den a) (map den b)).
+Proof. exact @naive_multiply_spec. Qed.
+Print Assumptions C07_mul_operator.
+
+(* fast_multiply: the degree bookkeeping (domain = next power of two >= deg sum + 1, resize cuts only stored zeros,
+   truncate(deg sum + 1) cuts only zeros, a zero operand against a non-constant one) on top of the C06 statements *)
+Theorem C07_fast_multiply :
+  forall {F1 F2 F3 K} (o1 : fops F1) (o2 : fops F2) (o3 : fops F3) (fk : fieldK K)
+         (ok1 : F1 -> Prop) (ok2 : F2 -> Prop) (ok3 : F3 -> Prop) (den1 : F1 -> K) (den2 : F2 -> K) (den3 : F3 -> K),
+  field_ok o1 fk ok1 den1 -> field_ok o2 fk ok2 den2 -> field_ok o3 fk ok3 den3 ->
+  forall mul12, mul12_ok fk ok1 ok2 ok3 den1 den2 den3 mul12 ->
+  forall ntt1 ntt2 intt3 lmax wr, ntt_ok fk ok1 den1 ntt1 lmax wr -> ntt_ok fk ok2 den2 ntt2 lmax wr ->
+  intt_ok fk ok3 den3 intt3 lmax wr -> roots_ok fk lmax wr ->
+  forall a b, Forall ok1 a -> Forall ok2 b -> poly_degree o1 a + poly_degree o2 b + 1 <= 2 ^ Z.of_nat lmax ->
+  exists r, poly_fast_multiply_gen o1 o2 mul12 ntt1 ntt2 intt3 a b = Some r /\ Forall ok3 r /\
+            zlen r <= Z.max 0 (poly_degree o1 a + poly_degree o2 b + 1) /\
+            peq fk (map den3 r) (pmul fk (map den1 a) (map den2 b)).
+Proof. exact @w_fast_multiply_gen. Qed.
+Print Assumptions C07_fast_multiply.
+
+(* multiply: whichever arm the regenerated threshold FAST_MULTIPLY_CUTOFF_THRESHOLD selects *)
+Theorem C07_multiply :
+  forall {F1 F2 F3 K} (o1 : fops F1) (o2 : fops F2) (o3 : fops F3) (fk : fieldK K)
+         (ok1 : F1 -> Prop) (ok2 : F2 -> Prop) (ok3 : F3 -> Prop) (den1 : F1 -> K) (den2 : F2 -> K) (den3 : F3 -> K),
+  field_ok o1 fk ok1 den1 -> field_ok o2 fk ok2 den2 -> field_ok o3 fk ok3 den3 ->
+  forall mul12, mul12_ok fk ok1 ok2 ok3 den1 den2 den3 mul12 ->
+  forall ntt1 ntt2 intt3 lmax wr, ntt_ok fk ok1 den1 ntt1 lmax wr -> ntt_ok fk ok2 den2 ntt2 lmax wr ->
+  intt_ok fk ok3 den3 intt3 lmax wr -> roots_ok fk lmax wr ->
+  forall a b, Forall ok1 a -> Forall ok2 b -> poly_degree o1 a + poly_degree o2 b + 1 <= 2 ^ Z.of_nat lmax ->
+  exists r, poly_multiply_gen o1 o2 o3 mul12 ntt1 ntt2 intt3 a b = Some r /\ Forall ok3 r /\
+            zlen r <= Z.max 0 (poly_degree o1 a + poly_degree o2 b + 1) /\
+            peq fk (map den3 r) (pmul fk (map den1 a) (map den2 b)).
+Proof. exact @w_multiply_gen. Qed.
+Print Assumptions C07_multiply.
+
+(* squares (the code of the current tree: after the repair of the stored-leading-zero panics, see C17) *)
+Theorem C07_slow_square :
+  forall {F K} (o : fops F) (fk : fieldK K) (ok : F -> Prop) (den : F -> K), field_ok o fk ok den ->
+  forall l, Forall ok l ->
+  exists r, poly_slow_square o l = Some r /\ Forall ok r /\ peq fk (map den r) (pmul fk (map den l) (map den l)).
+Proof. exact @w_slow_square. Qed.
+Print Assumptions C07_slow_square.
+
+Theorem C07_square :
+  forall {F K} (o : fops F) (fk : fieldK K) (ok : F -> Prop) (den : F -> K), field_ok o fk ok den ->
+  forall ntt intt lmax wr, ntt_ok fk ok den ntt lmax wr -> intt_ok fk ok den intt lmax wr -> roots_ok fk lmax wr ->
+  forall l, Forall ok l -> 2 * poly_degree o l + 1 <= 2 ^ Z.of_nat lmax ->
+  exists r, poly_square o ntt intt l = Some r /\ Forall ok r /\ peq fk (map den r) (pmul fk (map den l) (map den l)).
+Proof. exact @w_square. Qed.
+Print Assumptions C07_square.
+
+Theorem C07_fast_square :
+  forall {F K} (o : fops F) (fk : fieldK K) (ok : F -> Prop) (den : F -> K), field_ok o fk ok den ->
+  forall ntt intt lmax wr, ntt_ok fk ok den ntt lmax wr -> intt_ok fk ok den intt lmax wr -> roots_ok fk lmax wr ->
+  forall l, Forall ok l -> 2 * poly_degree o l + 1 <= 2 ^ Z.of_nat lmax ->
+  exists r, poly_fast_square o ntt intt l = Some r /\ Forall ok r /\ peq fk (map den r) (pmul fk (map den l) (map den l)).
+Proof. exact @w_fast_square. Qed.
+Print Assumptions C07_fast_square.
+
+(* powers = repeated product, every exponent (u32 in the code; any e >= 0 here), 0^0 = 1 *)
+Theorem C07_pow :
+  forall {F K} (o : fops F) (fk : fieldK K) (ok : F -> Prop) (den : F -> K), field_ok o fk ok den ->
+  forall l e, Forall ok l -> 0 <= e ->
+  exists r, poly_pow o l e = Some r /\ Forall ok r /\ peq fk (map den r) (ppow fk (map den l) (Z.to_nat e)).
+Proof. exact @pow_spec. Qed.
+Print Assumptions C07_pow.
+
+Theorem C07_fast_pow :
+  forall {F K} (o : fops F) (fk : fieldK K) (ok : F -> Prop) (den : F -> K), field_ok o fk ok den ->
+  forall ntt intt lmax wr, ntt_ok fk ok den ntt lmax wr -> intt_ok fk ok den intt lmax wr -> roots_ok fk lmax wr ->
+  forall l e, Forall ok l -> 0 <= e -> Z.max 0 (poly_degree o l) * e * 2 + 1 <= 2 ^ Z.of_nat lmax ->
+  exists r, poly_fast_pow o ntt intt l e = Some r /\ Forall ok r /\ peq fk (map den r) (ppow fk (map den l) (Z.to_nat e)).
+Proof. exact @w_fast_pow. Qed.
+Print Assumptions C07_fast_pow.
+
+(* batch_multiply: the chunks-of-two loop terminates (fuel = number of factors is enough) and returns the product of
+   the list, the empty list giving 1 *)
+Theorem C07_batch_multiply :
+  forall {F K} (o : fops F) (fk : fieldK K) (ok : F -> Prop) (den : F -> K), field_ok o fk ok den ->
+  forall ntt intt lmax wr, ntt_ok fk ok den ntt lmax wr -> intt_ok fk ok den intt lmax wr -> roots_ok fk lmax wr ->
+  forall ps, Forall (Forall ok) ps -> total_len ps <= 2 ^ Z.of_nat lmax ->
+  exists r, poly_batch_multiply o ntt intt ps = Some r /\ Forall ok r /\
+            peq fk (map den r) (pprod fk (map (map den) ps)).
+Proof. exact @w_batch_multiply. Qed.
+Print Assumptions C07_batch_multiply.
+
+(* par_batch_multiply: for EVERY thread count nt >= 1 (the value read from available_parallelism) *)
+Theorem C07_par_batch_multiply :
+  forall {F K} (o : fops F) (fk : fieldK K) (ok : F -> Prop) (den : F -> K), field_ok o fk ok den ->
+  forall ntt intt lmax wr, ntt_ok fk ok den ntt lmax wr -> intt_ok fk ok den intt lmax wr -> roots_ok fk lmax wr ->
+  forall nt ps, 1 <= nt -> Forall (Forall ok) ps -> total_len ps <= 2 ^ Z.of_nat lmax ->
+  exists r, poly_par_batch_multiply o ntt intt nt ps = Some r /\ Forall ok r /\
+            peq fk (map den r) (pprod fk (map (map den) ps)).
+Proof. exact @w_par_batch_multiply. Qed.
+Print Assumptions C07_par_batch_multiply.
+
+(* scalar multiplication = product with the constant polynomial *)
+Theorem C07_scalar_mul :
+  forall {F K} (o : fops F) (fk : fieldK K) (ok : F -> Prop) (den : F -> K), field_ok o fk ok den ->
+  forall l s, Forall ok l -> ok s ->
+  Forall ok (poly_scalar_mul o l s) /\ peq fk (map den (poly_scalar_mul o l s)) (pmul fk (pconst (den s)) (map den l)).
+Proof. exact @w_scalar_mul. Qed.
+Print Assumptions C07_scalar_mul.
+
+(* scale(alpha) = composition with alpha X: coefficient i is multiplied by alpha^i, hence P'(x) = P(alpha x) *)
+Theorem C07_scale :
+  forall {F K} (o : fops F) (fk : fieldK K) (ok : F -> Prop) (den : F -> K), field_ok o fk ok den ->
+  forall l a, Forall ok l -> ok a ->
+  Forall ok (poly_scale o l a) /\ map den (poly_scale o l a) = pcompscale fk (map den l) (den a) /\
+  forall x, peval fk (map den (poly_scale o l a)) x = peval fk (map den l) (kmul fk (den a) x).
+Proof. exact @w_scale. Qed.
+Print Assumptions C07_scale.
+
+(* shift_coefficients(n) = product with X^n *)
+Theorem C07_shift_coefficients :
+  forall {F K} (o : fops F) (fk : fieldK K) (ok : F -> Prop) (den : F -> K), field_ok o fk ok den ->
+  forall l n, Forall ok l ->
+  Forall ok (poly_shift_coefficients o l n) /\
+  peq fk (map den (poly_shift_coefficients o l n)) (pmul fk (pXn fk (Z.to_nat n)) (map den l)).
+Proof. exact @w_shift. Qed.
+Print Assumptions C07_shift_coefficients.
+
+(* ---- Polynomial<BFieldElement>: the C06 hypotheses discharged (NttProofs.ntt_b_is_dft, intt_b_is_idft,
+   roots_exact_order), transform lengths up to 2^31.  `canon` = canonical Montgomery word, `bden` its field value. *)
+Theorem C07_bfe_multiply : forall a b, Forall canon a -> Forall canon b ->
+  poly_degree bfe_ops a + poly_degree bfe_ops b + 1 <= 2 ^ 31 ->
+  exists r, poly_multiply bfe_ops ntt_b intt_b a b = Some r /\ Forall canon r /\
+            zlen r <= Z.max 0 (poly_degree bfe_ops a + poly_degree bfe_ops b + 1) /\
+            peq fp_field (map bden r) (pmul fp_field (map bden a) (map bden b)).
+Proof. exact bfe_multiply_spec. Qed.
+Print Assumptions C07_bfe_multiply.
+
+Theorem C07_bfe_fast_multiply : forall a b, Forall canon a -> Forall canon b ->
+  poly_degree bfe_ops a + poly_degree bfe_ops b + 1 <= 2 ^ 31 ->
+  exists r, poly_fast_multiply bfe_ops ntt_b intt_b a b = Some r /\ Forall canon r /\
+            zlen r <= Z.max 0 (poly_degree bfe_ops a + poly_degree bfe_ops b + 1) /\
+            peq fp_field (map bden r) (pmul fp_field (map bden a) (map bden b)).
+Proof. exact bfe_fast_multiply_spec. Qed.
+Print Assumptions C07_bfe_fast_multiply.
+
+Theorem C07_bfe_square : forall l, Forall canon l -> 2 * poly_degree bfe_ops l + 1 <= 2 ^ 31 ->
+  exists r, poly_square bfe_ops ntt_b intt_b l = Some r /\ Forall canon r /\
+            peq fp_field (map bden r) (pmul fp_field (map bden l) (map bden l)).
+Proof. exact bfe_square_spec. Qed.
+Print Assumptions C07_bfe_square.
+
+Theorem C07_bfe_fast_pow : forall l e, Forall canon l -> 0 <= e ->
+  Z.max 0 (poly_degree bfe_ops l) * e * 2 + 1 <= 2 ^ 31 ->
+  exists r, poly_fast_pow bfe_ops ntt_b intt_b l e = Some r /\ Forall canon r /\
+            peq fp_field (map bden r) (ppow fp_field (map bden l) (Z.to_nat e)).
+Proof. exact bfe_fast_pow_spec. Qed.
+Print Assumptions C07_bfe_fast_pow.
+
+Theorem C07_bfe_batch_multiply : forall ps, Forall (Forall canon) ps -> total_len ps <= 2 ^ 31 ->
+  exists r, poly_batch_multiply bfe_ops ntt_b intt_b ps = Some r /\ Forall canon r /\
+            peq fp_field (map bden r) (pprod fp_field (map (map bden) ps)).
+Proof. exact bfe_batch_multiply_spec. Qed.
+Print Assumptions C07_bfe_batch_multiply.
+
+Theorem C07_bfe_par_batch_multiply : forall nt ps, 1 <= nt -> Forall (Forall canon) ps -> total_len ps <= 2 ^ 31 ->
+  exists r, poly_par_batch_multiply bfe_ops ntt_b intt_b nt ps = Some r /\ Forall canon r /\
+            peq fp_field (map bden r) (pprod fp_field (map (map bden) ps)).
+Proof. exact bfe_par_batch_multiply_spec. Qed.
+Print Assumptions C07_bfe_par_batch_multiply.
+
+(* the hypotheses are satisfiable: the base field instance, and concrete well-formed operands *)
+Example C07_bfe_instance : field_ok bfe_ops fp_field canon bden.
+Proof. exact bfe_field_ok. Qed.
+Example C07_bfe_operands : Forall canon w_one_stored /\ Forall canon w_lin_stored /\ Forall canon w_lin.
+Proof. exact okb_witnesses. Qed.
